@@ -52,7 +52,7 @@ def gen_ops_case(rng):
 
 def gen_mark_case(rng):
     ss = G.gen_supp_list(rng, rng.randint(0, 5), flags=True)
-    locs = [[rng.choice(G.FILES[:3]), rng.choice([1, 2, 3, 4])] for _ in range(rng.randint(0, 5))]
+    locs = [[rng.choice(G.FILES[:3]) if rng.random() < 0.5 else rng.choice(G.FILE_PATTERNS[1:11]), rng.choice([1, 2, 3, 4])] for _ in range(rng.randint(0, 5))]
     return G.flat(ss) + G.flat(locs)
 
 
@@ -64,7 +64,7 @@ def gen_report_supp(rng):
     elif r < 0.32:
         s[0] = rng.choice([b"checkersReport", b"unusedFunction", b"misra-c2012-1.1", b"premium-x"])
     if rng.random() < 0.3:
-        s[1] = rng.choice([b"*", b"*.c", b"a.?", b"a.c"])
+        s[1] = rng.choice([b"*", b"*.c", b"a.?", b"a.c", b"src/*", b"**/b.c", b"src/a.c", b"sub/b.c"])
     if rng.random() < 0.5:
         s[8] = 0
     if rng.random() < 0.6:
@@ -81,7 +81,7 @@ def gen_report_case(rng):
         seen.add(G.supp_key(s))
         ss.append(s)
     filters = rng.choice([[], DEFAULT_FILTERS, [b"null*"], [b"*"], DEFAULT_FILTERS + [b"a*"]])
-    paths = rng.sample([b"a.c", b"b.c", b"x.h"], rng.randint(0, 3))
+    paths = rng.sample(G.PATHS, rng.randint(0, 3))
     return [rng.random() < 0.6] + G.flat([[f] for f in filters]) + G.flat(ss) + G.flat([[p] for p in paths])
 
 
@@ -96,13 +96,15 @@ class Program:
         self.order = []       # the .c files, in command-line order
         self.includes = {}    # .c name -> [header names]
         names = rng.sample(["a.c", "b.c", "c.c"], rng.randint(1, 3))
+        # some files live in directories (PathMatch::match is C31's pm_model in the model)
+        names = [rng.choice(["", "", "src/", "src/sub/"]) + n for n in names]
         self.order = sorted(names) if rng.random() < 0.7 else names
         fn = [0]
         use_header = header and rng.random() < 0.4
         if use_header:
             self._make("x.h", rng, fn, inline_comments, static=True, nblocks=rng.randint(1, 2))
         for n in self.order:
-            inc = use_header and rng.random() < 0.6
+            inc = use_header and "/" not in n and rng.random() < 0.6
             self.includes[n] = ["x.h"] if inc else []
             self._make(n, rng, fn, inline_comments, include=inc, nblocks=rng.randint(1, 4))
         if ctu and len(self.order) >= 2 and rng.random() < 0.5:
@@ -140,6 +142,7 @@ class Program:
 
     def write(self, d):
         for n, t in self.files.items():
+            os.makedirs(os.path.dirname(os.path.join(d, n)), exist_ok=True)
             with open(os.path.join(d, n), "w") as f:
                 f.write(t)
 
@@ -213,10 +216,16 @@ def cli_supp(rng, prog):
     allfiles = list(prog.files) + ["d.c"]
     if r < 0.35:
         f, line = "", -1
-    elif r < 0.75:
+    elif r < 0.65:
         f, line = rng.choice(allfiles), -1
+    elif r < 0.75:
+        # other spellings of a file: last components only, ./ prefix, a .. detour
+        f = rng.choice(list(prog.files))
+        b = f.rsplit("/", 1)[-1]
+        f = rng.choice([b, "./" + f, "zz/../" + f, "sub/" + b, f])
+        line = -1
     elif r < 0.85:
-        f, line = rng.choice(["*.c", "*", "?.c", "*.h", "z*"]), -1
+        f, line = rng.choice(["*.c", "*", "?.c", "*.h", "z*", "src/*", "src/**", "*/a.c", "**/b.c", "src/*/c.c", "s?c/*.c", "**.c"]), -1
     else:
         f = rng.choice(list(prog.files))
         line = rng.randint(1, max(1, prog.files[f].count("\n")))
@@ -224,13 +233,21 @@ def cli_supp(rng, prog):
     return spec, [sid, f, line, -1, -1, 0, b"", b"", 0, False, False, False, False]
 
 
+def _key(s):
+    # parseLine simplifies the file name; two spellings of one file are one suppression (rejected as duplicate)
+    import posixpath
+    k = list(G.supp_key(s))
+    k[1] = posixpath.normpath(k[1]) if k[1] else k[1]
+    return tuple(k)
+
+
 def gen_config(rng, prog, want_nofail=True):
     nomsg, seen = [], set()
     for _ in range(rng.choice([0, 1, 1, 2, 2, 3, 4])):
         spec, s = cli_supp(rng, prog)
-        if G.supp_key(s) in seen:
+        if _key(s) in seen:
             continue
-        seen.add(G.supp_key(s))
+        seen.add(_key(s))
         nomsg.append((spec, s))
     nofail, seen = [], set()
     if want_nofail:
@@ -238,9 +255,9 @@ def gen_config(rng, prog, want_nofail=True):
             spec, s = cli_supp(rng, prog)
             if rng.random() < 0.3:
                 spec, s = "unmatchedSuppression", ["unmatchedSuppression", "", -1, -1, -1, 0, b"", b"", 0, False, False, False, False]
-            if G.supp_key(s) in seen:
+            if _key(s) in seen:
                 continue
-            seen.add(G.supp_key(s))
+            seen.add(_key(s))
             nofail.append((spec, s))
     return {
         "nomsg": nomsg, "nofail": nofail,
